@@ -27,13 +27,16 @@ TECHNIQUE = ("explicit-state BFS over programs of stochastic API calls (state = 
              "with harness-owned entropy/clock variants (tripwires) and an introspected isolation sweep over every "
              "component accepting rng")
 RULE = ("one execution = [pollution prefix Q;] seed(s); program P on fresh fixtures, outputs and the generator-state "
-        "pair after seeding and after every call serialised bit-exactly; programs = all sequences of length <= L over "
-        "the call alphabet (quick: L=2 over 16 core calls; thorough: L=3 over the core calls + L=2 over all 46 calls), "
-        "for each of 4 seeds, each compared with its reference under every prefix (every core call + 12 direct "
-        "manipulations of the two streams), with the object built before seeding, and under 2 further entropy / 1 "
-        "further clock variants when entropy / the clock was requested; isolation: each discovered rng-accepting "
-        "component x {Generator, RandomState} x global states; non-trivial = every call of the program advanced a "
-        "global stream / the component drew from the explicit generator; distinct by digest of (seed, program)")
+        "pair after seeding and after every call serialised bit-exactly; programs = all sequences over the call "
+        "alphabet: quick: length <= 2 over the 16 core calls for each of 4 seeds; thorough: additionally length 3 over "
+        "the core calls for 2 of the seeds (0 and the 64-bit one) and, over all 46 calls, length 1 for 4 seeds and "
+        "length 2 for 2 seeds (1 and 2^32-1); each program compared with its reference under every pollution prefix "
+        "(length <= 2: every core call + 12 direct manipulations of the two streams; length 3: the program's own "
+        "calls + the 12; all-calls family: 4 representative calls + own + the 12), in a second identical run, live from "
+        "the restored parent state, with the objects built before seeding, and under 2 further entropy / 1 further "
+        "clock variants when entropy / the clock was requested; isolation: each discovered rng-accepting component x "
+        "{Generator, RandomState} x global states; non-trivial = every call of the program advanced a global stream / "
+        "the component drew from the explicit generator; distinct by digest of (seed, program)")
 ASSUME = ["numpy's and python's generators are deterministic functions of their state (trusted base)",
           "all fresh entropy reaches python through os.urandom / random._urandom / random.seed(None) / "
           "numpy.random.seed(None) (verified for numpy 2.x: SeedSequence(None), PCG64(), RandomState(), default_rng() "
@@ -84,11 +87,15 @@ EXT_Q_CORE = ("mate2", "spawn2", "ga_subset", "select_subset")
 
 
 def q_names(s, prog_names, ext):
-    """Pollution prefixes for one program: every core call + the 12 direct manipulations; for the all-calls family
-    (thorough, length <= 2): 4 representative core calls + the program's own calls + the direct manipulations."""
+    """Pollution prefixes for one program: programs of length <= 2 over the core calls: every core call + the 12
+    direct manipulations; core programs of length 3 (thorough): the program's own calls + the direct manipulations;
+    all-calls family (thorough, length <= 2): 4 representative core calls + own calls + the direct manipulations."""
+    own = [("call:" + n) for n in dict.fromkeys(prog_names)]
     if ext:
         qs = [("call:" + n) for n in EXT_Q_CORE]
-        qs += [("call:" + n) for n in dict.fromkeys(prog_names) if ("call:" + n) not in qs]
+        qs += [q for q in own if q not in qs]
+    elif len(prog_names) >= 3:
+        qs = own
     else:
         qs = [("call:" + n) for n in core_names()]
     qs += [n for n, _ in S.direct_pollutions(s)]
@@ -350,15 +357,17 @@ def _mk_gen(kind, seed):
 
 
 def _global_states(v, n):
-    from pybrops.core.random import prng
+    """n different (python, numpy) global states, built without any library call (so that they are what they are
+    even when the library's seed() is broken); odd ones carry cached gaussians."""
     out = []
     for i in range(n):
-        prng.seed(11 * (i + 1) + v)
+        p = random.Random(11 * (i + 1) + v)
+        r = numpy.random.RandomState(101 * (i + 1) + v)
         if i % 2 == 1:
-            numpy.random.standard_normal()      # cached gaussian
-            random.gauss(0.0, 1.0)
-            numpy.random.random(3)
-        out.append(E.get_pair())
+            r.standard_normal()
+            p.gauss(0.0, 1.0)
+            r.random_sample(3)
+        out.append((p.getstate(), r.get_state(legacy=False)))
     return out
 
 
@@ -374,10 +383,15 @@ def iso_run(fn, v, G, kind, gseed, entropy=0, clock=0, blame=False):
             sites = E.blame_global_draws(lambda: fn(fx, rng))
             env.stop_recording()
             return sites
-        out = fn(fx, rng)
+        raised = None
+        try:
+            out = fn(fx, rng)
+        except Exception as e:      # whether this configuration can be driven at all is not C08's question; a call that
+            out = ("raised", type(e).__name__)      # raises is compared like any other outcome and flagged as uncovered
+            raised = f"{type(e).__name__}: {str(e)[:80]}"
         env.stop_recording()
         after = E.pair_parts(E.get_pair())
-        return dict(out=E.dig(E.ser(out)), gen=E.dig(E.gen_state(rng)), drew=(E.gen_state(rng) != g0),
+        return dict(out=E.dig(E.ser(out)), gen=E.dig(E.gen_state(rng)), drew=(E.gen_state(rng) != g0), raised=raised,
                     py_moved=before[0] != after[0], np_moved=before[1] != after[1],
                     records=list(env.records), clock_sites=sorted(env.clock_sites))
 
@@ -415,6 +429,9 @@ def check_iso(ctx, fullname, v, tier):
                     ctx.transitions += 1
                     runs.append(iso_run(fn, v, G, kind, gseed))
                 r0 = runs[0]
+                if any(r["raised"] for r in runs):
+                    ctx.flag(f"iso-run-raised:{short}:{kind}:{next(r['raised'] for r in runs if r['raised'])}")
+                    ctx.count("iso-runs-that-raised")
                 ctx.state(digest((fullname, kind, gseed, r0["gen"])))
                 ctx.outcome(digest((fullname, kind, r0["out"])))
                 if r0["drew"]:
@@ -426,9 +443,12 @@ def check_iso(ctx, fullname, v, tier):
                 bad = False
                 if moved:
                     bad = True
-                    ctx.evaluations += 1
-                    if "sites" not in blamed:
-                        blamed["sites"] = iso_run(fn, v, Gs[0], kind, gseed, blame=True)
+                    if "sites" not in blamed:       # union over the global states: GA trajectories differ
+                        found = set()
+                        for G in Gs:
+                            ctx.evaluations += 1
+                            found.update(iso_run(fn, v, G, kind, gseed, blame=True))
+                        blamed["sites"] = sorted(found)
                     sites = blamed["sites"]
                     if not sites:
                         sites = [("numpy" if any(r["np_moved"] for r in runs) else "python", site)]
@@ -552,6 +572,10 @@ def scan(ctx):
 ISO_CHUNK = 5
 
 
+DEPTH3_SEEDS = (0, 3)        # seed indices explored to length 3 in the thorough tier (0 and the 64-bit seed)
+EXT_L2_SEEDS = (1, 2)        # seed indices for which the all-calls family is explored to length 2 (1 and 2**32-1)
+
+
 def shards(tier, seed):
     out = [("scan",)]
     core = core_names()
@@ -563,11 +587,19 @@ def shards(tier, seed):
         step = 4
         for s_i in range(N_SEEDS):
             for c1 in core:
-                for i in range(0, len(core), step):
-                    out.append(("prog", s_i, c1, core[i:i + step], 3, False, i == 0))
+                if s_i in DEPTH3_SEEDS:
+                    for i in range(0, len(core), step):
+                        out.append(("prog", s_i, c1, core[i:i + step], 3, False, i == 0))
+                else:
+                    out.append(("prog", s_i, c1, None, 2, False, True))
+        ext = [n for n in all_names() if n not in core]
         for s_i in range(N_SEEDS):
-            for c1 in all_names():
-                out.append(("prog", s_i, c1, None, 2, True, True))
+            if s_i in EXT_L2_SEEDS:
+                for c1 in all_names():
+                    out.append(("prog", s_i, c1, None, 2, True, True))
+            else:
+                for i in range(0, len(ext), 6):
+                    out.append(("prog1", s_i, ext[i:i + 6]))
     names = sorted(_discovered()[0])
     for i in range(0, len(names), ISO_CHUNK):
         out.append(("iso", names[i:i + ISO_CHUNK]))
@@ -578,7 +610,8 @@ def run_shard(spec, ctx):
     v = ctx.seed % 3
     T = ctx.tier == "thorough"
     ctx.bounds.update({"seeds": [str(x) for x in S.seeds(v)], "program_length_core": 3 if T else 2,
-                       "program_length_all_calls": 2 if T else 0, "core_calls": len(core_names()),
+                       "program_length_all_calls": 2 if T else 0, "seeds_at_length_3": 2 if T else 0,
+                       "seeds_at_length_2_all_calls": 2 if T else 0, "core_calls": len(core_names()),
                        "all_calls": len(all_names()), "direct_pollutions": len(S.direct_pollutions(0)),
                        "entropy_variants": 1 + len(ENTROPY_VARIANTS), "clock_variants": 2,
                        "iso_global_states": 3 if T else 2, "iso_explicit_seeds": 2 if T else 1,
@@ -589,30 +622,42 @@ def run_shard(spec, ctx):
         _, s_i, c1, seconds, L, ext, with_root = spec
         run_programs(ctx, s_i, c1, seconds, L, v, ext=ext, with_root=with_root)
         ctx.flag(f"seed-index:{s_i}")
+    elif spec[0] == "prog1":
+        for c1 in spec[2]:
+            run_programs(ctx, spec[1], c1, None, 1, v, ext=True)
+        ctx.flag(f"seed-index:{spec[1]}")
     elif spec[0] == "iso":
         for name in spec[1]:
             check_iso(ctx, name, v, ctx.tier)
 
 
 def finalize(ctx, tier, seed):
+    from ..core import load_known, match_known
     T = tier == "thorough"
     letters = all_names() if T else core_names()
+    # guards that presuppose a correctly behaving library (a call draws from the global stream, a component draws
+    # from the generator it was given) protect against a vacuous *pass*; they are not applied to a run that reports
+    # unlisted violations anyway (a mutant that stops drawing must end as VIOLATION, not as a harness error)
+    known = load_known()
+    strict = all(match_known(ID, sig, known) for sig in ctx.violations)
     for n in letters:
         assert ctx.counters.get("letter:" + n, 0) > 0, f"call {n} never executed"
-        assert "drew:" + n in ctx.flags, f"call {n} never advanced a global stream (trivial letter)"
+        assert not strict or "drew:" + n in ctx.flags, f"call {n} never advanced a global stream (trivial letter)"
     for n in core_names():
         assert ctx.counters.get("Q:call:" + n, 0) > 0, f"call {n} never used as pollution"
-        assert "Q-changed-state:call:" + n in ctx.flags, f"pollution by {n} never changed the global state"
+        assert not strict or "Q-changed-state:call:" + n in ctx.flags, f"pollution by {n} never changed the global state"
     for n, _ in S.direct_pollutions(0):
         assert ctx.counters.get("Q:" + n, 0) > 0, n
         if n != "default_rng()":
-            assert "Q-changed-state:" + n in ctx.flags, f"direct pollution {n} left the global state untouched"
+            assert not strict or "Q-changed-state:" + n in ctx.flags, f"direct pollution {n} left the global state untouched"
     for i in range(N_SEEDS):
         assert f"seed-index:{i}" in ctx.flags
     assert ctx.counters.get("program-len-1", 0) >= N_SEEDS * len(letters)
     assert ctx.counters.get("program-len-2", 0) >= N_SEEDS * len(core_names()) ** 2
     if T:
-        assert ctx.counters.get("program-len-3", 0) >= N_SEEDS * len(core_names()) ** 3
+        assert ctx.counters.get("program-len-3", 0) >= len(DEPTH3_SEEDS) * len(core_names()) ** 3
+        nx = len(all_names()) ** 2 - len(core_names()) ** 2
+        assert ctx.counters.get("program-len-2", 0) >= N_SEEDS * len(core_names()) ** 2 + len(EXT_L2_SEEDS) * nx
     assert ctx.counters.get("persistent-mode", 0) > 0
     assert "tripwire-selftest" in ctx.flags and "blame-selftest" in ctx.flags
     assert len(ctx.outcomes) > 100, len(ctx.outcomes)
@@ -626,7 +671,7 @@ def finalize(ctx, tier, seed):
                 "SteepestDescentSubsetHillClimber", "mat_meiosis", "EstimatedBreedingValueSubsetSelection"):
         assert "iso:" + fam in ctx.flags, fam
     for fam in ("TwoWayCross", "G_E_Phenotyping", "SubsetSelectionConfiguration", "tiled_choice", "SteepestDescentSubsetHillClimber"):
-        assert "iso-drew:" + fam in ctx.flags, f"{fam} never drew from the explicit generator"
+        assert not strict or "iso-drew:" + fam in ctx.flags, f"{fam} never drew from the explicit generator"
 
 
 def replay(case, ctx):
